@@ -199,11 +199,43 @@ def check_files(mtjs):
     return out
 
 
+def check_bare_token():
+    """A sentence annotated as a bare pre-terminal, `(UH Yes)`: the bracket reader delivers a tree that is a single
+    token.  It has no rules, but its token counts in the lexicon, before and after an ordinary tree."""
+    import os
+    from ..runner import scratch
+    from trees import treeinput
+    out = []
+    path = os.path.join(scratch(), 'bare%d.mrg' % os.getpid())
+    with open(path, 'w', encoding='utf-8') as f:
+        f.write('(UH Yes)\n(VROOT (S (UH Yes) (VB go)))\n(UH Yes)\n')
+    try:
+        g, lex = {}, {}
+        n = 0
+        for t in treeinput.brackets(path, 'utf-8', quiet=True):
+            grammar.extract(t, g, lex)
+            n += 1
+        got = {w: dict(c) for w, c in lex.items()}
+        want = {'Yes': {'UH': 3}, 'go': {'VB': 1}}
+        if n != 3 or got != want:
+            out.append({'kind': 'lexicon-counts', 'where': 'grammar.extract', 'case': {'bare_token': True},
+                        'detail': '%d trees read; lexicon %r, expected %r (three sentences, two of them a bare (UH Yes))' % (n, got, want),
+                        'what': 'a one-token tree without constituents does not count in the lexicon'})
+    except Exception as e:
+        out.append({'kind': 'exception', 'where': 'grammar.extract', 'case': {'bare_token': True},
+                    'detail': '%s: %s' % (type(e).__name__, e), 'what': 'extraction from a bare token tree raised'})
+    finally:
+        os.unlink(path)
+    return out
+
+
 def check_case(case):
     if 'grammar_run' in case:
         from .. import clipipe
         return clipipe.replay_grammar(case)
     with quiet():
+        if case.get('bare_token'):
+            return check_bare_token()
         if case.get('files'):
             return check_files(case['bank'])
         return check_bank(case['bank'], case['cfg'])[0]
@@ -239,6 +271,10 @@ def run_chunk(chunk):
         if chunk['kind'] == 'wide':
             # size probes: one node with L children, all tags equal / equal in the middle / alternating
             L = chunk['L']
+            if L == 5:
+                for v in check_bare_token():
+                    res.violation(v['kind'], v['where'], v['case'], v['detail'], v['what'])
+                res.evals += 1
             for pos in (['x'] * L, ['d'] + ['x'] * (L - 2) + ['n'], ['x' if i % 2 else 'y' for i in range(L)],
                         [None] + ['x'] * (L - 1), [''] + ['x'] * (L - 2) + [None]):      # tags missing in the source (TIGER <t> without pos)
                 for nested in (False, True):
